@@ -41,9 +41,13 @@ def gen(rng, i, tier):
             if k not in [kk for kk, _ in t]:
                 t.append((k, G.coef(rng)))
         upd = []
-        if t and rng.random() < 0.15:
+        r_upd = rng.random()
+        if t and r_upd < 0.15:
             k = rng.choice(t)[0]
             upd = [(k, F(0))]                # stale variables
+        elif t and r_upd < 0.40:             # new values for existing terms: same number of terms, degree and variables
+            upd = [(k, G.coef(rng)) for k in {rng.choice(t)[0] for _ in range(rng.randint(1, 2))}]
+        warm = rng.random() < 0.4            # history: convert, edit (upd), convert again -- the second result is observed
         meth = rng.randrange(4)
         deg = rng.choice([None, 2, 2, 2, 3, 3, 4]) if meth in (0, 3) else None
         if rng.random() < 0.04 and meth in (0, 3):
@@ -64,13 +68,21 @@ def gen(rng, i, tier):
                 other = [l for l in (C.POOL if uni == 'pool' else range(8)) if l not in labs]
                 if other:
                     pairs.append([C.enc(rng.choice(other)), C.enc(labs[0])])
-        return {"kind": kind, "terms": G.jraw(t), "upd": G.jraw(upd), "meth": meth, "deg": deg, "lam": lam, "pairs": pairs}
+        return {"kind": kind, "terms": G.jraw(t), "upd": G.jraw(upd), "meth": meth, "deg": deg, "lam": lam, "pairs": pairs,
+                "warm": warm}
     finally:
         G.DYADIC_ONLY = False
 
 
 def build(case):
     m = cls_of(case["kind"])({k: C.num(v) for k, v in G.unjraw(case["terms"])})
+    if case.get("warm"):
+        # every conversion once before the edit: whatever a conversion may remember must not survive the edit
+        for meth, kw in (("to_qubo", {}), ("to_quso", {}), ("to_pubo", {"deg": case["deg"]}), ("to_puso", {"deg": case["deg"]})):
+            try:
+                getattr(m, meth)(**kw)
+            except (KeyError, ValueError, TypeError):
+                pass
     for k, v in G.unjraw(case["upd"]):
         m[k] = C.num(v)
     return m
